@@ -21,12 +21,12 @@ func init() { register(c08{}) }
 
 func (c08) ID() string { return "C08" }
 func (c08) Rule() string {
-	return "regions of 1..5 segments (lengths 1..6, gaps>=1, forward, complemented, and mixed-strand lists) taken from Location.Region() on a 40..60-residue sequence (unique complement-invariant ids, and random IUPAC letters so the complement is visible) x all five modifier forms x offsets in [-len-3,len+3]: exhaustive for 1..3 segments on a fixed layout, seeded for 1..5. Oracle (spliced-coordinate model M3): Resize(m).Locate(seq).Bytes() == window [lo,hi) of the outward-extended spliced sequence; zero-length results compared by Head() (either side accepted at a junction); windows leaving the sequence are skipped; AsModifier(m.String())==m. Locators assembled from known parts (modifier | point | range | complement(range) | selector by key and /label regexp, each optionally @modifier, and bare @modifier): the regions returned, compared through extraction in table order, must be the model's. non-trivial: >=2 segments or a non-zero offset; distinct: canonical case text. CLI layer: gts extract [-v] <locator> (one or two locators, with modifiers) of the real binary (--no-cache) on generated records and streams: one record per distinct located region with the residues the spliced-coordinate model gives."
+	return "regions of 1..5 segments (lengths 1..6, gaps>=1, forward, complemented, and mixed-strand lists) taken from Location.Region() on a 40..60-residue sequence (unique complement-invariant ids, and random IUPAC letters so the complement is visible) x all five modifier forms x offsets in [-len-3,len+3]: exhaustive for 1..3 segments on a fixed layout, seeded for 1..5. Oracle (spliced-coordinate model M3): Resize(m).Locate(seq).Bytes() == window [lo,hi) of the outward-extended spliced sequence; zero-length results compared by Head() (either side accepted at a junction); windows leaving the sequence are skipped; AsModifier(m.String())==m. Locators assembled from known parts (modifier | point | range | complement(range) | selector by key and /label regexp, each optionally @modifier, and bare @modifier): the regions returned, compared through extraction in table order, must be the model's. non-trivial: >=2 segments or a non-zero offset; distinct: canonical case text. CLI layer: gts extract [-v] <locator> (one or two locators, with modifiers) of the real binary (--no-cache) on generated records and streams: one record per distinct located region with the residues the spliced-coordinate model gives. Selectors whose regular expression holds = (/function=aa=Sec, =v, k=v=w) on tables whose values hold = themselves."
 }
 func (c08) RequiredBuckets(tier string) []string {
 	out := []string{"segments:1", "segments:2", "segments:3", "segments:4", "segments:5", "strand:fwd", "strand:rev", "strand:mixed",
 		"mod:^", "mod:$", "mod:^$", "mod:^^", "mod:$$", "window:inside", "window:extends-5'", "window:extends-3'", "window:zero-length", "window:crosses-junction",
-		"modifier-roundtrip", "locator:modifier", "locator:point", "locator:range", "locator:complement", "locator:selector", "locator:selector@mod", "locator:@mod", "locator:no-match", "locator:table-not-sorted"}
+		"modifier-roundtrip", "locator:modifier", "locator:point", "locator:range", "locator:complement", "locator:selector", "locator:selector@mod", "locator:@mod", "locator:no-match", "locator:table-not-sorted", "locator:selector-regexp-holds-an-equals-sign"}
 	out = append(out, "cmd:extract", "cmd:extract -v", "extract:two-locators", "stream:records-independent", "cache-on:after-sibling")
 	return out
 }
@@ -176,6 +176,19 @@ func (m c08) checkLocator(c *fw.Ctx, r *rand.Rand, tab []gts.Feature, seqB []byt
 		r.Shuffle(len(ht), func(i, j int) { ht[i], ht[j] = ht[j], ht[i] })
 		c.Bucket("locator:table-not-sorted")
 	}
+	// some tables carry a qualifier whose values hold '=' themselves
+	// (/transl_except=(pos:..,aa:Sec) style "name=value" texts): a selector's
+	// regular expression is everything behind the first '='.
+	eqVals := []string{"aa=Sec", "aa", "aa=Pyl", "k=v=w"}
+	eqOf := map[string]string{}
+	if r.Intn(4) == 0 {
+		for i := range ht {
+			v := eqVals[r.Intn(len(eqVals))]
+			ht[i].Props = append(gts.Props{}, ht[i].Props...)
+			ht[i].Props.Add("function", v)
+			eqOf[gen.Label(ht[i])] = v
+		}
+	}
 	host := gts.New(nil, ht, append([]byte(nil), seqB...))
 	table := host.Features()
 	// X part.
@@ -225,6 +238,12 @@ func (m c08) checkLocator(c *fw.Ctx, r *rand.Rand, tab []gts.Feature, seqB []byt
 			pat := fmt.Sprintf("h[%d-%d]$", r.Intn(3), 3+r.Intn(5))
 			clause, re = "/label="+pat, regexp.MustCompile(pat)
 		}
+		eqPat := ""
+		if len(eqOf) > 0 {
+			eqPat = []string{"aa=Sec", "aa=", "=v", "^aa$", "k=v=w"}[r.Intn(5)]
+			clause, re = "/function="+eqPat, nil
+			c.Bucket("locator:selector-regexp-holds-an-equals-sign")
+		}
 		if key == "" && clause == "" {
 			key = "gene"
 		}
@@ -233,6 +252,9 @@ func (m c08) checkLocator(c *fw.Ctx, r *rand.Rand, tab []gts.Feature, seqB []byt
 				continue
 			}
 			if re != nil && !re.MatchString(gen.Label(f)) {
+				continue
+			}
+			if eqPat != "" && !regexp.MustCompile(eqPat).MatchString(eqOf[gen.Label(f)]) {
 				continue
 			}
 			xs = append(xs, xr{model.RegionOf(f.Loc)})
